@@ -1404,6 +1404,11 @@ func (gqm *GroupQuotaManager) doUpdateOneGroupMinQuotaNoLock(quotaName string, n
 			return
 		}
 		parentRuntimeCalculator.updateOneGroupMinQuota(curQuotaInfo)
+		// the request of a quota that does not lend depends on its min, so the parent's calculator
+		// must see the new request too, not only the new min.
+		if parentRuntimeCalculator.needUpdateOneGroupRequest(curQuotaInfo) {
+			parentRuntimeCalculator.updateOneGroupRequest(curQuotaInfo)
+		}
 
 		newSubLimitReq := curQuotaInfo.getLimitRequestNoLock()
 		deltaRequest := quotav1.Subtract(newSubLimitReq, oldSubLimitReq)
